@@ -155,3 +155,12 @@ claim("C11",
       "and returned values (the round trip) are not decided.",
       "Trusted: the RFC 2822 section 4.3 transcription in analysis/props/c11.py; analysis/sym.py; analysis/abs*.py; specs/justifications.txt.",
       "DESIGN.md 5/C11, appendix A.4")
+claim("C18",
+      "decision-table extraction from path conditions, who-may-reference rule for the thread-local, call-order and constant rules",
+      "NARROW claim (the property quantifies over histories and schedules, which static analysis cannot decide). Decides the structure behind it: the zone cache is a "
+      "thread_local referenced by one function only; on every refresh the TZ variable is re-read; the reload decision over (old source kind, new source kind, hash/mtime "
+      "differ) is exactly `kind changed or value differs => reload`, the reloaded zone is stored before any lookup, the cache is reused only while < 1 s has elapsed; zone "
+      "selection falls back local -> system -> UTC; from_posix_tz's dispatch order; relative zone names are opened only under the zoneinfo directories. Timing, file-system "
+      "state and the behaviour over sequences of environment changes are not decided.",
+      "Trusted: analysis/sym.py path enumeration.",
+      "DESIGN.md 5/C18")
